@@ -20,7 +20,9 @@ def run(idx, rep, tier):
     simplex.r_bitmap(idx, rep)
     simplex.r_maskpoint(idx, rep)
     simplex.r_planes(idx, rep)
+    simplex.r_windingdecision(idx, rep)
     simplex.r_solverdispatch(idx, rep)
+    simplex.r_lineweights(idx, rep)
     johnson.r_johnson(idx, rep)
     johnson.r_johnsonrec(idx, rep)
     johnson.r_johnsonopt(idx, rep)
